@@ -1,4 +1,4 @@
-//go:build verif
+//go:build verif && !verifpub
 
 package main
 
@@ -13,40 +13,6 @@ import (
 func init() {
 	register("scalar", "C02: every Scalar operation and raw scalar-fiat entry point", driveScalar)
 }
-
-func scFrom(v *big.Int) *secp256k1.Scalar {
-	s, err := secp256k1.NewScalarFromCanonicalBytes(be32(v))
-	if err != nil {
-		panic("scFrom: " + err.Error())
-	}
-	return s
-}
-
-// scHex is the canonical encoding of s.  It also watches the INTERNAL representation: the Montgomery limbs of every scalar the
-// harness looks at must be the canonical residue v*R mod n (a value like n itself in the limbs encodes to 0 but is not zero for
-// IsZero / Equal).  Every anomaly, and a sample of the normal cases, is logged as an sc.Canon event; TLC decides.
-func scHex(s *secp256k1.Scalar) string {
-	b := s.Bytes()
-	if canonSink != nil {
-		canonSeen++
-		fresh, err := secp256k1.NewScalarFromCanonicalBytes((*[32]byte)(b))
-		odd := err != nil || fresh.VerifMont() != s.VerifMont() || fresh.Equal(s) != 1 || (s.IsZero() == 1) != (new(big.Int).SetBytes(b).Sign() == 0)
-		if odd || canonSeen%97 == 0 {
-			eq := -1
-			if err == nil {
-				eq = int(fresh.Equal(s))
-			}
-			canonSink.E("sc.Canon", "v", hx(b), "mont", h32(limbsToBig(s.VerifMont())), "iszero", int(s.IsZero()), "eq_fresh", eq)
-		}
-	}
-	return hx(b)
-}
-
-func scJunk(r *rand.Rand) *secp256k1.Scalar {
-	return scFrom(add(randBig(r, add(bigN, -1)), 1))
-}
-
-func h32(v *big.Int) string { return hx(be32(v)[:]) }
 
 func driveScalar(c *ctx) {
 	r := rand.New(rand.NewSource(c.seed))
@@ -338,4 +304,5 @@ func driveScalar(c *ctx) {
 		fiat.Nonzero(&nz, &l4)
 		c.E("smont.Nonzero", "a", h32(v), "out", b2i(nz != 0))
 	}
+	scalarLife(c, r, vals)
 }
